@@ -17,6 +17,16 @@ SvcNext == /\ Len(hist) < MaxOps
               \/ \E n \in Names : Add(n, "ext")
 SvcSpec == Init /\ [][SvcNext]_vars
 (* two connections, one registers, the other tries the same or another name, then they leave in either order *)
+(* connections come and go: one leaves while another stays, a new one arrives, then both leave in either order *)
+ChurnNext == \/ hist = <<>> /\ SvcConnect("s1", TRUE)
+             \/ Len(hist) = 1 /\ SvcConnect("s2", TRUE)
+             \/ Len(hist) = 2 /\ \E w \in {"agent", "listener", "exc2"} : SvcReg("s2", w, "x1")
+             \/ Len(hist) = 3 /\ SvcDisconnect("s1")
+             \/ Len(hist) = 4 /\ SvcConnect("s1", TRUE)
+             \/ Len(hist) = 5 /\ \E w \in {"agent", "listener", "exc2"}, x \in Items : SvcReg("s1", w, x)
+             \/ Len(hist) = 6 /\ \E s \in Svc : SvcDisconnect(s)
+             \/ Len(hist) = 7 /\ \E s \in Svc : SvcDisconnect(s)
+ChurnSpec == Init /\ [][ChurnNext]_vars
 DupNext == \/ hist = <<>> /\ SvcConnect("s1", TRUE)
            \/ Len(hist) = 1 /\ SvcConnect("s2", TRUE)
            \/ Len(hist) = 2 /\ \E w \in {"agent", "listener", "exc2"} : SvcReg("s1", w, "x1")
